@@ -110,6 +110,20 @@ def oracle(ck, extended):
         for (a, b) in [(L // 2 + 3, 40), (41, L // 2 + 6)]:
             yl = gen.float_tensor(ck.nprng, (1, 1, a, b)); yh = [gen.float_tensor(ck.nprng, (1, 1, 3, a, b))]
             rt.guard(ck, oracle_inv, ck, 2, rng.choice([0, 1, 6]), (np.array(w.rec_lo), np.array(w.rec_hi)), yl, yh, tol=1e-9, named=name)
+    # pyramids of signals / images above every blocking / tiling threshold (gen.scale_shapes_*), every mode, per-axis pairs
+    wl = ['db2', 'bior2.4', 'sym5', 'db7', 'db4', 'haar']
+    fl1 = lambda sh: gen.float_tensor(ck.nprng, sh)
+    for k, shp in enumerate(gen.scale_shapes_1d(ck.tier)):
+        for m in gen.MODES5:
+            w = pywt.Wavelet(wl[(k + m) % len(wl)]); L = w.dec_len
+            yl, yh = make_pyramid(rng, 1, shp[0], shp[1], shp[2], L, L, m, 1 + (k + m) % 3, fl1)
+            rt.guard(ck, oracle_inv, ck, 1, m, (np.array(w.rec_lo), np.array(w.rec_hi)), yl, yh, tol=1e-9, named=w.name)
+    for k, shp in enumerate(gen.scale_shapes_2d(ck.tier)):
+        for m in gen.MODES5:
+            w = pywt.Wavelet(wl[(k + m) % len(wl)]); w2 = pywt.Wavelet(wl[(k + m + 3) % len(wl)]); four = (k + m) % 3 == 0
+            yl, yh = make_pyramid(rng, 2, shp[0], shp[1], (shp[2], shp[3]), w.dec_len, w2.dec_len if four else w.dec_len, m, 1 + (k + m) % 3, fl1)
+            filt = (np.array(w.rec_lo), np.array(w.rec_hi), np.array(w2.rec_lo), np.array(w2.rec_hi)) if four else (np.array(w.rec_lo), np.array(w.rec_hi))
+            rt.guard(ck, oracle_inv, ck, 2, m, filt, yl, yh, tol=1e-9, named=None if four else w.name)
     for name in named_wavelets(rng, 40 if q else 106):
         w = pywt.Wavelet(name); L = w.dec_len
         m = rng.choice(gen.MODES5); J = rng.randint(1, 3)
